@@ -4,16 +4,22 @@ import math
 from harness import dtwgen
 
 COQ_FILES = ["theories/BandTie.v", "theories/Prune.v", "theories/PyDist.v", "theories/PyDistProofs.v",
-             "theories/PyDistPrune.v", "props/C03.v"]
+             "theories/PyDistPrune.v", "gen/Gen_cdist.v", "theories/CDistCanon.v", "theories/CDistTie.v",
+             "theories/CDistProofs.v", "theories/CDistSpec.v", "props/C03.v"]
 THEOREMS = [("DVProps.C03", "C03_pruning_sound_partial"), ("DVProps.C03", "C03_max_dist_result_partial"),
-            ("DVProps.C03", "C03_euclidean_bound_keeps_value"), ("DVProps.C03", "C03_pruned_code_model_exact")]
+            ("DVProps.C03", "C03_euclidean_bound_keeps_value"), ("DVProps.C03", "C03_pruned_code_model_exact"),
+            ("DVProps.C03", "C03_c_kernel_result_is_bounded_value"), ("DVProps.C03", "C03_c_kernel_no_bound_no_cut")]
 TRUSTED_BASE = [
     "Coq 8.16.1 kernel (no native_compute)",
     "the sc/ec/ec_next/smaller_found/break bookkeeping of dtw.distance is modelled as written (PyDist.distp_model, "
     "rolling buffer, regenerated index arithmetic) and PROVED exact for every bound when there is no begin relaxation "
     "(C03_pruned_code_model_exact); the hand model is tied to dtw.distance and dtw_distance (C) by correspondence "
     "(oracle command pydistp) on ALL settings, including begin psi where model and code are unsound alike (F06)",
-    "partial: warping_paths / the C kernels' bookkeeping: covered by the abstract theorem (any strategy skipping only "
+    "the C kernel dtw_distance is regenerated WHOLE from dd_dtw.c (tools/cfun.py -> Gen_cdist.v, bookkeeping included) "
+    "and PROVED to return the specification value cut at the bound in use, for every bound "
+    "(C03_c_kernel_result_is_bounded_value; the other three kernels under C02); the value of "
+    "euclidean_distance_squared (the bound with use_pruning) is an oracle parameter of that theorem",
+    "partial: bookkeeping of the C warping-paths kernels: covered by the abstract theorem (any strategy skipping only "
     "cells above the bound) + correspondence",
     "extraction + driver.ml",
 ]
